@@ -369,6 +369,8 @@ func ruleCC2(c *Ctx) {
 		})
 		return out
 	}
+	var isCharsLikeFn func(e ast.Expr) bool
+	var idxOfFn func(x *ast.IndexExpr) ast.Expr
 	var tokensOf func(e ast.Expr, at ast.Node, env map[types.Object]ast.Expr, depth int) []tokRead
 	tokensOf = func(e ast.Expr, at ast.Node, env map[types.Object]ast.Expr, depth int) []tokRead {
 		if depth > 5 {
@@ -387,8 +389,8 @@ func ruleCC2(c *Ctx) {
 			}
 			return out
 		case *ast.IndexExpr:
-			if usesObj(info, x.X) == charsObj {
-				return []tokRead{{x.Index, at}}
+			if isCharsLikeFn(x.X) {
+				return []tokRead{{idxOfFn(x), at}}
 			}
 		case *ast.SelectorExpr:
 			return tokensOf(x.X, at, env, depth+1) // tok.Str
@@ -399,11 +401,86 @@ func ruleCC2(c *Ctx) {
 		}
 		return nil
 	}
+	// windows: locals that only ever hold a suffix of chars (w := chars, w = w[k:], w = chars[k:]);
+	// w[c] is then the class character at (start of w) + c, the start being one symbolic atom
+	windows := map[types.Object]bool{}
+	{
+		cand := map[types.Object]bool{}
+		bad := map[types.Object]bool{}
+		ast.Inspect(fd.Body, func(n ast.Node) bool {
+			as, ok := n.(*ast.AssignStmt)
+			if !ok || len(as.Lhs) != len(as.Rhs) {
+				return true
+			}
+			for i, l := range as.Lhs {
+				id, isId := ast.Unparen(l).(*ast.Ident)
+				if !isId {
+					continue
+				}
+				o := usesObj(info, id)
+				if o == nil || o == charsObj || !types.Identical(o.Type(), charsObj.Type()) {
+					continue
+				}
+				r := ast.Unparen(as.Rhs[i])
+				okRhs := false
+				if usesObj(info, r) == charsObj {
+					okRhs = true
+				}
+				if sl, isSl := r.(*ast.SliceExpr); isSl && sl.High == nil && sl.Max == nil {
+					if b := usesObj(info, sl.X); b == charsObj || b == o {
+						okRhs = true
+					}
+				}
+				if okRhs {
+					cand[o] = true
+				} else {
+					bad[o] = true
+				}
+			}
+			return true
+		})
+		for o := range cand {
+			if !bad[o] {
+				windows[o] = true
+			}
+		}
+	}
+	isCharsLike := func(e ast.Expr) bool {
+		o := usesObj(info, e)
+		return o != nil && (o == charsObj || windows[o])
+	}
+	// idxOf: the position of X[i] in the list as an expression the linear forms can compare: for a
+	// window w it is w + i (w stands for the window's start), for chars itself i
+	idxOf := func(x *ast.IndexExpr) ast.Expr {
+		if o := usesObj(info, x.X); o != nil && windows[o] {
+			return &ast.BinaryExpr{X: x.X, Op: token.ADD, Y: x.Index}
+		}
+		return x.Index
+	}
+	// a window must not move between two reads that are compared
+	windowMovedBetween := func(a, b token.Pos) bool {
+		if a > b {
+			a, b = b, a
+		}
+		moved := false
+		ast.Inspect(fd.Body, func(n ast.Node) bool {
+			if as, ok := n.(*ast.AssignStmt); ok && as.Pos() > a && as.Pos() < b {
+				for _, l := range as.Lhs {
+					if o := usesObj(info, l); o != nil && windows[o] {
+						moved = true
+					}
+				}
+			}
+			return true
+		})
+		return moved
+	}
 	type item struct {
 		from, to []tokRead
 		at       ast.Node
 		facts    []condFact
 	}
+	isCharsLikeFn, idxOfFn = isCharsLike, idxOf
 	var items []item
 	decoded := true
 	par := parents(fd)
@@ -484,8 +561,8 @@ func ruleCC2(c *Ctx) {
 				if !isK || !isSel || k.Name() != "CLASS_DASH" || sel.Sel.Name != "Type" {
 					continue
 				}
-				if ix, ok := ast.Unparen(sel.X).(*ast.IndexExpr); ok && usesObj(info, ix.X) == charsObj {
-					mt, mk := linearForm(info, nil, ix.Index)
+				if ix, ok := ast.Unparen(sel.X).(*ast.IndexExpr); ok && isCharsLike(ix.X) {
+					mt, mk := linearForm(info, nil, idxOf(ix))
 					if fmt.Sprint(mt) == fmt.Sprint(fromTerms) && mk-fromK == 1 {
 						return true
 					}
@@ -502,6 +579,9 @@ func ruleCC2(c *Ctx) {
 			for _, tr := range it.to {
 				tt, tk := linearForm(info, nil, tr.idx)
 				same := fmt.Sprint(ft) == fmt.Sprint(tt)
+				if same && len(windows) > 0 && windowMovedBetween(fr.at.Pos(), tr.at.End()) {
+					same = false // the two reads are relative to different window positions
+				}
 				switch {
 				case same && tk-fk == 0:
 					single = true
